@@ -137,8 +137,9 @@ func LocalName(t *rapid.T, cfg *telemetry.UploadConfig, prog string, mark *int, 
 	case 4:
 		if InvalidUTF8Names && rapid.IntRange(0, 2).Draw(t, "invalidUTF8") == 0 {
 			// near misses that differ from an approved expansion only by bytes that are not valid UTF-8
-			// (a counter name is raw bytes in the file; text handling that repairs them must not turn it into an approved name)
-			return rapid.SampledFrom([]string{one + "\xff", "\x80" + one, one[:len(one)/2] + "\xfe" + one[len(one)/2:], one + "\xed\xa0\x80", "\xc3" + one}).Draw(t, "invalidUTF8Name")
+			// (a counter name is raw bytes in the file; text handling that repairs them must not turn it into an approved name).
+			// No two of these variants of one name become equal when the bytes are replaced by U+FFFD, as a JSON rendering does.
+			return rapid.SampledFrom([]string{one + "\xff", "\x80" + one, one[:len(one)/2] + "\xfe" + one[len(one)/2:], one + "\xed\xa0\x80"}).Draw(t, "invalidUTF8Name")
 		}
 		// near misses of an approved expansion
 		return rapid.SampledFrom([]string{one[:len(one)-1] + "", one + "x", one + " ", strings.ToUpper(one), " " + one,
